@@ -205,6 +205,19 @@ check(
     "DESIGN.md §3 C16",
 )
 
+check(
+    "C20",
+    "reference-monitor",
+    "exploration",
+    "runtime monitoring: three-phase differential monitor in fresh processes (record under former identifiers / identifier equality under deprecation / real repair command on workspaces in prior states) with inventory, reachability, idempotence and resubmission oracles",
+    "Job directories are recorded by a process in which nothing is deprecated, together with the identifier the replacement classes give; processes with the old classes deprecated then "
+    "check identifier equality at every position (root, nested, list, dict, wrapper, producing task of an output) and run 'deprecated list --fix [--cleanup]' on workspaces that are "
+    "untouched, already linked, dangling, partially repaired or linked-then-cleaned: payload reachable under the new identifier, no recorded file lost, second repair is a no-op, "
+    "resubmission finds the success marker.",
+    "Trusted: expected new identifiers come from the replacement classes without deprecate(); job directories are generate-only outputs plus harness-written marker and payload.",
+    "DESIGN.md §3 C20",
+)
+
 NOT_APPLICABLE = []
 
 
